@@ -165,6 +165,31 @@ def canon(fn: FuncInfo, expr: ast.AST | None, *, depth: int = 4, limit: int = 24
     return out
 
 
+def expand_conjuncts(P: Project, fn: FuncInfo, expr: ast.expr, depth: int = 2) -> list[ast.expr]:
+    """Conjuncts of a boolean expression, where a conjunct that calls a repo predicate whose body is a single
+    `return <boolean expression>` is replaced by that expression's conjuncts with the parameters substituted by the
+    arguments (so `if is_resolved(x)` is read as what `is_resolved` tests)."""
+    import copy
+
+    out: list[ast.expr] = []
+    for c in conjuncts(expr):
+        inner, neg = strip_not(c)
+        if depth > 0 and not neg and isinstance(inner, ast.Call) and not inner.keywords:
+            r = P.resolve_call(fn, inner)
+            if r and r[0] == "func":
+                callee: FuncInfo = r[1]  # type: ignore[assignment]
+                body = [s for s in callee.node.body if not (isinstance(s, ast.Expr) and isinstance(s.value, ast.Constant))]
+                if len(body) == 1 and isinstance(body[0], ast.Return) and body[0].value is not None:
+                    ps = [p_ for p_ in params_of(callee.node) if p_ != "self"]
+                    if len(ps) >= len(inner.args):
+                        env = dict(zip(ps, inner.args))
+                        sub = _Subst(env).visit(copy.deepcopy(body[0].value))
+                        out.extend(expand_conjuncts(P, callee, sub, depth - 1))
+                        continue
+        out.append(c)
+    return out
+
+
 def defined_by(fn: FuncInfo, pattern: str, var: str = "v", *, into_nested: bool = False) -> list[str]:
     """Names of the locals bound by an assignment matching `pattern` (which must bind metavariable `$v`)."""
     return [b[var].id for _n, b in pfind(pattern, fn.node, into_nested=into_nested) if isinstance(b.get(var), ast.Name)]  # type: ignore[union-attr]
@@ -187,5 +212,5 @@ __all__ = [
     "is_within", "kwarg", "last_attr", "names_in", "norm", "params_of", "stmt_of", "strip_not", "unparse",
     "walk_body", "walk_local", "cfg_of", "find_calls_named", "body_calls", "check_identity_forwarding",
     "loop_var_uses", "guard_tests", "dominated_by_guard", "simple_return_expr", "local_value", "qual",
-    "pfind", "pfirst", "phas", "pmatch", "ptests", "name_of", "same_var", "is_var", "canon", "defined_by",
+    "pfind", "pfirst", "phas", "pmatch", "ptests", "name_of", "same_var", "is_var", "canon", "defined_by", "expand_conjuncts",
 ]
